@@ -96,7 +96,7 @@ func (vm *VM) compile(ctx context.Context, text *text, s string, args ...interfa
 			return err
 		}
 
-		et, err := expand(vm, t, nil)
+		et, err := expand(ctx, vm, t, nil)
 		if err != nil {
 			return err
 		}
